@@ -19,6 +19,8 @@ type caseKind struct {
 }
 
 func workerMain() int {
+	// a runaway recursion in the code under test must fail fast, not fill 1 GB of stack first
+	debug.SetMaxStack(64 << 20)
 	in := bufio.NewReaderSize(os.Stdin, 1<<20)
 	out := bufio.NewWriterSize(os.Stdout, 1<<20)
 	for {
